@@ -313,7 +313,7 @@ var MaxHangs = 2
 func BlockedIn(pkg string) []string {
 	buf := make([]byte, 1<<22)
 	buf = buf[:runtime.Stack(buf, true)]
-	var out []string
+	out := []string{}
 	for _, g := range strings.Split(string(buf), "\n\n") {
 		if !strings.Contains(g, pkg) {
 			continue
@@ -336,6 +336,24 @@ func BlockedIn(pkg string) []string {
 		}
 	}
 	return out
+}
+
+// AwaitOrHang waits for a value on ch. When limit passes it looks for goroutines parked inside pkg: if there are
+// some the call is hung (their frames are returned); if there are none the call is merely slow (a loaded machine)
+// and the wait goes on, in steps of limit, for up to ten more limits. ok = false: hung (or, with no frames, the
+// extended wait was exhausted - the caller reports the empty list, which no trace specification takes for a verdict).
+func AwaitOrHang[T any](ch <-chan T, limit time.Duration, pkg string) (v T, ok bool, blocked []string) {
+	for i := 0; i <= 10; i++ {
+		select {
+		case v = <-ch:
+			return v, true, nil
+		case <-time.After(limit):
+			if blocked = BlockedIn(pkg); len(blocked) > 0 {
+				return v, false, blocked
+			}
+		}
+	}
+	return v, false, []string{}
 }
 
 // Step executes one input. A panic inside the code under test is recorded as
@@ -367,12 +385,13 @@ func (rn *Runner) Step(in Input) (err error) {
 		}()
 		done <- rn.step(in)
 	}()
-	select {
-	case err = <-done:
-		return err
-	case <-time.After(HangLimit):
+	e, ok, blocked := AwaitOrHang(done, HangLimit, "gribigo/rib")
+	switch {
+	case ok:
+		return e
+	default:
 		rn.gen++ // events of the stuck call, should it ever resume, are dropped
-		rn.Sink.Emit(Event{"ev": "hang", "input": in, "blocked": BlockedIn("gribigo/rib")})
+		rn.Sink.Emit(Event{"ev": "hang", "input": in, "blocked": blocked})
 		rn.Hangs++
 		rn.dead = true
 		rn.r = nil
